@@ -92,7 +92,102 @@ def scenarios(tier, seed):
                                     budget_s=60, cost=len(sup)))
     for i in range(24 if tier == "quick" else 96):
         out.append(dict(family="unweighted/concrete-twin", mode="unweighted", variant=i, hashseed=i % 2, concrete_only=True))
+    for i in range(12 if tier == "quick" else 60):
+        out.append(dict(family="em/concrete-twin", mode="em", variant=i + (0 if tier == "quick" else 100 * seed), hashseed=i % 2, concrete_only=True))
     return out
+
+
+EM_STRUCTS = [
+    # (edges, latents): latent root with children, latent mediator, latent with an observed parent and an observed grandchild
+    ([("L", "A"), ("L", "B"), ("A", "C")], ["L"]),
+    ([("A", "L"), ("L", "B"), ("L", "C")], ["L"]),
+    ([("L", "A"), ("L", "B"), ("B", "C"), ("A", "C")], ["L"]),
+    ([("L", "A"), ("K", "B"), ("L", "B"), ("K", "C")], ["L", "K"]),
+]
+
+
+def run_em(desc, M):
+    """concrete twin (nothing symbolic survives pandas/VE inside EM): observed-data likelihood never decreases from k to k+1 iterations, EM = MLE without latents"""
+    import math
+    import pandas as pd
+    from pgmpy.estimators import ExpectationMaximization, MaximumLikelihoodEstimator
+    from pgmpy.factors.discrete import TabularCPD
+    from pgmpy.models import BayesianNetwork
+    M.declare([])
+    v = desc["variant"]
+    rng = np.random.default_rng(1000 + v)
+    edges, latents = EM_STRUCTS[v % len(EM_STRUCTS)]
+    obs = [x for x in "ABC"]
+    card = dict(A=2, B=2 + v % 2, C=2 + (v // 2) % 2)
+    lcard = {lv: 2 + ((v // 4 + i) % 2) for i, lv in enumerate(latents)}
+    n = int(rng.integers(12, 30))
+    lab = (lambda x, s: f"{x.lower()}{s}") if v % 3 == 1 else (lambda x, s: s)
+    data = pd.DataFrame({x: [lab(x, int(s)) for s in rng.integers(0, card[x], size=n)] for x in obs})
+    if v % 3 == 1:
+        for x in obs:  # pandas-3 'str' columns are not recognised by this pgmpy's preprocess_data (pinned environment; outside the property): categorical
+            data[x] = data[x].astype("category")
+    sn = {x: [lab(x, s) for s in range(card[x])] for x in obs}
+    allcard = {**card, **lcard}
+    allsn = {**sn, **{lv: list(range(k)) for lv, k in lcard.items()}}
+    model = BayesianNetwork(edges, latents=set(latents))
+    touched = set(latents) | {ch for lv in latents for ch in model.get_children(lv)}
+
+    def rand_cpd(x):
+        pa = list(model.get_parents(x))
+        ncol = int(np.prod([allcard[p] for p in pa])) if pa else 1
+        t = rng.random((allcard[x], ncol)) + 0.2
+        t = t / t.sum(axis=0)
+        return TabularCPD(x, allcard[x], t, evidence=pa or None, evidence_card=[allcard[p] for p in pa] or None, state_names={y: allsn[y] for y in [x] + pa})
+    init = {x: rand_cpd(x) for x in sorted(touched)}
+
+    def loglik(cpds):
+        by = {cpd.variable: cpd.to_factor() for cpd in cpds}
+        tot = 0.0
+        for _, r in data.iterrows():
+            s = 0.0
+            for ls in itertools.product(*[range(lcard[lv]) for lv in latents]):
+                a = {**{x: r[x] for x in obs}, **dict(zip(latents, ls))}
+                p = 1.0
+                for x, phi in by.items():
+                    p *= float(phi.values[tuple(phi.name_to_no[y][a[y]] for y in phi.variables)])
+                s += p
+            tot += math.log(s)
+        return tot
+    prev = None
+    for k in range(1, 5 if v % 2 else 7):
+        em = ExpectationMaximization(model, data, state_names=dict(sn))
+        cpds = em.get_parameters(latent_card=dict(lcard), max_iter=k, init_cpds={x: cp.copy() for x, cp in init.items()}, show_progress=False, n_jobs=1, atol=0)
+        if not M.check({cp.variable for cp in cpds} == set(model.nodes()) and len(cpds) == len(model.nodes()), "EM returns one CPD per node (latents included)",
+                       detail=str([cp.variable for cp in cpds])):
+            return
+        for cp in cpds:
+            pa = list(model.get_parents(cp.variable))
+            M.check(cp.variables[0] == cp.variable and set(cp.variables[1:]) == set(pa), "EM CPD scope = node + graph parents", detail=str(cp.variables))
+            M.check(all(list(cp.state_names[y]) == list(allsn[y]) for y in cp.variables), "EM CPD keeps the declared state names", detail=str(cp.state_names))
+            M.check(bool(np.allclose(cp.get_values().sum(axis=0), 1.0, atol=1e-9)), "EM CPD columns sum to one")
+        ll = loglik(cpds)
+        if prev is not None:
+            M.check(ll >= prev - 1e-9, "EM never decreases the observed-data log-likelihood from one iteration to the next",
+                    detail=f"after {k - 1} iterations {prev!r}, after {k} iterations {ll!r}")
+        prev = ll
+    # nothing latent: EM coincides with maximum likelihood
+    m2 = BayesianNetwork([("B", "C"), ("A", "C")] if v % 2 else [("A", "B"), ("B", "C")])
+    cp_em = ExpectationMaximization(m2, data, state_names=dict(sn)).get_parameters(show_progress=False)
+    cp_ml = {cp.variable: cp for cp in MaximumLikelihoodEstimator(m2, data, state_names=dict(sn)).get_parameters()}
+    M.check({cp.variable for cp in cp_em} == set(cp_ml), "EM without latents: one CPD per node")
+    for cp in cp_em:
+        o = cp_ml.get(cp.variable)
+        if o is None:
+            continue
+        f1, f2 = cp.to_factor(), o.to_factor()
+        ok = set(f1.variables) == set(f2.variables)
+        if ok:
+            for st in itertools.product(*[sn[y] for y in f1.variables]):
+                a = dict(zip(f1.variables, st))
+                x1 = float(f1.values[tuple(f1.name_to_no[y][a[y]] for y in f1.variables)])
+                x2 = float(f2.values[tuple(f2.name_to_no[y][a[y]] for y in f2.variables)])
+                ok = ok and abs(x1 - x2) <= 1e-9
+        M.check(ok, "EM without latent variables coincides with maximum likelihood", detail=cp.variable)
 
 
 def label(v, s, dtype):
@@ -102,6 +197,8 @@ def label(v, s, dtype):
 def run(desc, M):
     if desc["mode"] == "unweighted":
         return run_unweighted(desc, M)
+    if desc["mode"] == "em":
+        return run_em(desc, M)
     import pandas as pd
     from pgmpy.estimators import BayesianEstimator, MaximumLikelihoodEstimator
     from pgmpy.factors.discrete import TabularCPD
